@@ -41,7 +41,7 @@ Definition conv_to (g : gty) (x : Z) : res Z :=
   | _ => Raise TypeError
   end.
 
-Fixpoint elem_gty (g : gty) (d : nat) : option gty :=
+Fixpoint elem_gty (g : gty) (d : nat) {struct d} : option gty :=
   match d with
   | O => Some g
   | S d' => match under g with GArr _ e => elem_gty e d' | _ => None end
